@@ -23,6 +23,15 @@ package bbr
 //	   (b) EntrySlotsUsed <= C*(packets in flight + 1) + C0;
 //	   (c) integrity: the entry the queue returns for an in-flight pn is the one stored for it.
 //
+//	O5 "does not deadlock", made observable at the pacing gate the way quic-go's send loop uses it:
+//	   (a) whenever HasPacingBudget(now) is false, the TimeUntilSend() that follows must be non-zero
+//	       and strictly after now (otherwise the loop re-arms an expired timer: no progress);
+//	   (b) at an announced deadline, if nothing happened in between (no send, no ack/loss event, no
+//	       datagram-size change), HasPacingBudget must be true;
+//	   (c) backstop: >2000 consecutive "no budget" answers at one and the same instant = spinning.
+//	   After its first violation the monitor answers "may send" (fail-stop), so a real quic-go send
+//	   loop can never spin on a sender that has already been refuted.
+//
 // Constants of O4 and why they are sound for every QUIC-consistent sequence:
 //
 //	"In flight" is what the controller can know: retransmittable packets passed to OnPacketSent
@@ -128,6 +137,7 @@ type vfC12Rec struct {
 type vfC12Stats struct {
 	Calls, Sent, SentRetx, Events, AckedPkts, LostPkts, LossOnlyEvents, MTUEvents int64
 	Queries                                                                     int64
+	PacingLimited, DeadlinesAnnounced, DeadlinesChecked                         int64
 	PreInstallAcked                                                             int64
 	MaxNonRetxRun                                                               int
 	MaxSlots                                                                    int
@@ -170,6 +180,18 @@ type vfC12Mon struct {
 	nRef       int
 	lastEvT    monotime.Time
 	haveEv     bool
+
+	// pacing-gate state (O5)
+	epoch     int64 // incremented by every send / congestion event / datagram-size change
+	plValid   bool
+	plNow     monotime.Time
+	plEpoch   int64
+	annValid  bool
+	annT      monotime.Time
+	annEpoch  int64
+	spinNow   monotime.Time
+	spinEpoch int64
+	spinN     int
 
 	IllFormed []string // predicate breaches (harness/simulator bug, or wrong predicate if real QUIC did it)
 	onViol    func(key, detail string, tail []string)
@@ -398,6 +420,7 @@ func (m *vfC12Mon) OnPacketSent(sentTime monotime.Time, bytesInFlight congestion
 	}
 	m.St.Calls++
 	m.St.Sent++
+	m.epoch++
 	p, b, bif := int64(pn), int64(bytes), int64(bytesInFlight)
 	m.note("S t=%d pn=%d bytes=%d bif=%d retx=%v", sentTime, p, b, bif, isRetransmittable)
 	// --- structural predicate
@@ -477,6 +500,7 @@ func (m *vfC12Mon) OnCongestionEventEx(priorInFlight congestion.ByteCount, event
 	}
 	m.St.Calls++
 	m.St.Events++
+	m.epoch++
 	m.St.AckedPkts += int64(len(acked))
 	m.St.LostPkts += int64(len(lost))
 	if len(acked) == 0 {
@@ -602,6 +626,7 @@ func (m *vfC12Mon) SetMaxDatagramSize(s congestion.ByteCount) {
 	}
 	m.St.Calls++
 	m.St.MTUEvents++
+	m.epoch++
 	m.note("M size=%d (was %d)", s, m.mtu)
 	if int64(s) < m.mtu {
 		m.ill("SetMaxDatagramSize(%d) below the current size %d", s, m.mtu)
@@ -614,26 +639,58 @@ func (m *vfC12Mon) SetMaxDatagramSize(s congestion.ByteCount) {
 	m.checkOutputs("SetMaxDatagramSize")
 }
 
+// After the first violation the monitor fails open: "may send, no pacing". The engine stops a
+// simulator trace anyway; a real quic-go connection just finishes its transfer uncontrolled.
 func (m *vfC12Mon) CanSend(bytesInFlight congestion.ByteCount) (ok bool) {
 	m.mu.Lock()
 	defer m.mu.Unlock()
 	if m.Dead {
-		return false
+		return true
 	}
 	m.St.Queries++
 	m.guard("CanSend", func() { ok = m.bbrSender.CanSend(bytesInFlight) })
-	return ok
+	return ok || m.Dead
 }
 
 func (m *vfC12Mon) HasPacingBudget(now monotime.Time) (ok bool) {
 	m.mu.Lock()
 	defer m.mu.Unlock()
 	if m.Dead {
-		return false
+		return true
 	}
 	m.St.Queries++
 	m.guard("HasPacingBudget", func() { ok = m.bbrSender.HasPacingBudget(now) })
-	return ok
+	if m.Dead {
+		return true
+	}
+	atDeadline := m.annValid && m.annEpoch == m.epoch && now >= m.annT
+	if atDeadline {
+		m.St.DeadlinesChecked++ // an announced deadline reached with nothing in between
+	}
+	if ok {
+		m.plValid = false
+		m.spinN = 0
+		return true
+	}
+	m.St.PacingLimited++
+	if atDeadline {
+		p := m.bbrSender.pacer
+		m.note("P now=%d HasPacingBudget=false (announced %d)", now, m.annT)
+		m.violate("bbr:no-budget-at-announced-time", "pacing limited, TimeUntilSend() announced %d; nothing happened in between (no send, no ack/loss event, no datagram-size change), yet at %d HasPacingBudget=false: budget %d < datagram %d (pacer bandwidth %d B/s, mode=%d pacingGain=%.2f)",
+			m.annT, now, p.Budget(now), m.bbrSender.maxDatagramSize, m.bbrSender.bandwidthForPacer(), m.bbrSender.mode, m.bbrSender.pacingGain)
+		return true
+	}
+	m.plValid, m.plNow, m.plEpoch = true, now, m.epoch
+	if m.spinN > 0 && now == m.spinNow && m.epoch == m.spinEpoch {
+		m.spinN++
+		if m.spinN > 2000 {
+			m.violate("bbr:send-loop-spin", "HasPacingBudget(%d)=false %d times in a row at the same instant with no send/ack in between: the send loop is spinning", now, m.spinN)
+			return true
+		}
+	} else {
+		m.spinN, m.spinNow, m.spinEpoch = 1, now, m.epoch
+	}
+	return false
 }
 
 func (m *vfC12Mon) TimeUntilSend(bytesInFlight congestion.ByteCount) (t monotime.Time) {
@@ -644,7 +701,30 @@ func (m *vfC12Mon) TimeUntilSend(bytesInFlight congestion.ByteCount) (t monotime
 	}
 	m.St.Queries++
 	m.guard("TimeUntilSend", func() { t = m.bbrSender.TimeUntilSend(bytesInFlight) })
+	if m.Dead {
+		return 0
+	}
+	if m.plValid && m.plEpoch == m.epoch {
+		m.St.DeadlinesAnnounced++
+		if t == 0 || t <= m.plNow {
+			p := m.bbrSender.pacer
+			m.note("P now=%d HasPacingBudget=false TimeUntilSend=%d", m.plNow, t)
+			m.violate("bbr:pacing-limited-without-future-deadline", "HasPacingBudget(%d)=false (budget %d < datagram %d, pacer bandwidth %d B/s) but TimeUntilSend()=%d is zero or not after now: quic-go's send loop re-arms an expired pacing timer and makes no progress (mode=%d pacingGain=%.2f)",
+				m.plNow, p.Budget(m.plNow), m.bbrSender.maxDatagramSize, m.bbrSender.bandwidthForPacer(), t, m.bbrSender.mode, m.bbrSender.pacingGain)
+			return 0
+		}
+	}
+	m.annValid, m.annT, m.annEpoch = true, t, m.epoch
 	return t
+}
+
+// SetRTTStatsProvider is what SetCongestionControl calls first: the outputs must already be
+// sane at installation, before the first packet and long before the first ack.
+func (m *vfC12Mon) SetRTTStatsProvider(p congestion.RTTStatsProvider) {
+	m.mu.Lock()
+	defer m.mu.Unlock()
+	m.guard("SetRTTStatsProvider", func() { m.bbrSender.SetRTTStatsProvider(p) })
+	m.checkOutputs("SetRTTStatsProvider (installation)")
 }
 
 func (m *vfC12Mon) GetCongestionWindow() (w congestion.ByteCount) {
@@ -693,6 +773,9 @@ func vfC12NewAgg() *vfC12Agg {
 func (a *vfC12Agg) add(k *vfKit, st vfC12Stats) {
 	k.Count("ev_callbacks", st.Calls)
 	k.Count("ev_queries", st.Queries)
+	k.Count("pacing_limited_answers", st.PacingLimited)
+	k.Count("pacing_deadlines_checked_future", st.DeadlinesAnnounced)
+	k.Count("pacing_deadlines_reached_undisturbed", st.DeadlinesChecked)
 	k.Count("packets_sent", st.Sent)
 	k.Count("packets_sent_retransmittable", st.SentRetx)
 	k.Count("packets_sent_ack_only", st.Sent-st.SentRetx)
